@@ -12,6 +12,7 @@ import (
 	"strings"
 	"time"
 
+	"golang.org/x/tools/go/ast/astutil"
 	"golang.org/x/tools/go/ssa"
 
 	"verif/internal/core"
@@ -82,6 +83,7 @@ type lastStep struct {
 	wrapper bool       // the value is a pointer to a reference wrapper (or path item)
 	coll    types.Type // for range: the collection the element comes from
 	desc    string
+	phiOpt  bool // for phi: one of the merged values may be nil
 }
 
 type nilAnalyzer struct {
@@ -107,6 +109,17 @@ type nilAnalyzer struct {
 	derefs     int
 	proved     int
 	round      int
+	// unset: "Owner.Field" of a non-model repo struct -> where a composite literal of the struct
+	// leaves the (pointer, interface or function) field unset
+	unset map[string]string
+	lits  map[string][]litInfo // by struct name
+}
+
+// litInfo: one keyed composite literal of a non-model repo struct.
+type litInfo struct {
+	given  map[string]bool   // fields given in the literal or assigned afterwards through its variable
+	consts map[string]string // fields given a constant string
+	pos    string
 }
 
 type nilViolation struct {
@@ -118,6 +131,7 @@ func newNilAnalyzer(p *core.Prog, cs *crashScope) *nilAnalyzer {
 	for _, n := range p.ModelTypes("openapi3", "T") {
 		a.model[n] = true
 	}
+	a.unset, a.lits = unsetByLiterals(p, a.model)
 	// validated-document axioms: each names the Validate line that rejects nil (checked by C04.descent)
 	a.axioms = map[string]string{
 		"Operation.Responses": "Operation.Validate rejects an operation without responses",
@@ -312,7 +326,25 @@ func (a *nilAnalyzer) accessKey0(v ssa.Value, depth int) (string, lastStep) {
 			return a.accessKey(x.X, depth+1)
 		}
 	case *ssa.Phi:
-		return fmt.Sprintf("phi:%p", x), lastStep{kind: "phi"}
+		ls := lastStep{kind: "phi"}
+		if depth < 6 {
+			// a merge of values one of which may be nil needs a proof like that value itself
+			for _, e := range x.Edges {
+				if e == ssa.Value(x) {
+					continue
+				}
+				if c, ok := e.(*ssa.Const); ok && c.IsNil() {
+					ls.phiOpt, ls.desc = true, "nil on one incoming path"
+					break
+				}
+				_, els := a.accessKey0(e, depth+2)
+				if opt, why := a.optional(els, e.Type()); opt {
+					ls.phiOpt, ls.desc = true, "on one incoming path: "+why
+					break
+				}
+			}
+		}
+		return fmt.Sprintf("phi:%p", x), ls
 	}
 	return fmt.Sprintf("v:%p", v), lastStep{kind: "other"}
 }
@@ -826,6 +858,9 @@ func (a *nilAnalyzer) optional(ls lastStep, ty types.Type) (bool, string) {
 	switch ls.kind {
 	case "field":
 		if !ls.model {
+			if where, ok := a.unset[ls.owner+"."+ls.field]; ok {
+				return true, "field " + ls.desc + " (left unset by the literal at " + where + ")"
+			}
 			return false, ""
 		}
 		if a.raw {
@@ -850,6 +885,10 @@ func (a *nilAnalyzer) optional(ls lastStep, ty types.Type) (bool, string) {
 		}
 		if a.loaded && ls.model && !ls.wrapper {
 			return true, "entry of a document collection that the loader does not check (JSON null yields a nil entry)"
+		}
+	case "phi":
+		if ls.phiOpt {
+			return true, "a value merged from several paths, " + ls.desc
 		}
 	case "lookup":
 		return true, "map lookup (nil when the key is absent)"
@@ -1080,7 +1119,7 @@ func (a *nilAnalyzer) condFacts(c ssa.Value, sense bool, out map[string]nilFact)
 		}
 		// validated-document axiom: a schema whose type is/includes "array" has items
 		// (Schema.validate: "when schema type is 'array', schema 'items' must be non-null")
-		if !a.raw && sense && (sc.Name() == "Is" || sc.Name() == "Includes") && len(x.Common().Args) == 2 {
+		if !a.raw && !a.loaded && sense && (sc.Name() == "Is" || sc.Name() == "Includes") && len(x.Common().Args) == 2 {
 			if c, ok := x.Common().Args[1].(*ssa.Const); ok && c.Value != nil && c.Value.Kind() == constant.String && constant.StringVal(c.Value) == "array" {
 				k, _ := a.accessKey(x.Common().Args[0], 0)
 				if strings.HasSuffix(k, ".Type") {
@@ -1089,8 +1128,70 @@ func (a *nilAnalyzer) condFacts(c ssa.Value, sense bool, out map[string]nilFact)
 			}
 		}
 	case *ssa.Phi:
-		// short-circuit results materialised as phi of constants and conditions are not refined
+		// short-circuit results materialised as phi of constants and conditions are not refined;
+		// a flag merged in lock-step with a value (`v, ok = m[k]` on several paths, `ok` false where
+		// v is still nil): the flag being true means the value came from a successful lookup
+		if sense {
+			for _, in := range x.Block().Instrs {
+				p, ok := in.(*ssa.Phi)
+				if !ok {
+					break
+				}
+				if p == x {
+					continue
+				}
+				switch p.Type().Underlying().(type) {
+				case *types.Pointer, *types.Interface, *types.Map, *types.Signature:
+				default:
+					continue
+				}
+				if pairedPhi(x, p, map[[2]*ssa.Phi]bool{}) {
+					out[fmt.Sprintf("phi:%p", p)] = factNonNil
+				}
+			}
+		}
 	}
+}
+
+// pairedPhi: on every incoming edge the boolean phi b is the constant false, or b and p receive the
+// ok flag and the value of one comma-ok lookup / assertion, or they receive another such pair of phis.
+func pairedPhi(b, p *ssa.Phi, seen map[[2]*ssa.Phi]bool) bool {
+	if b.Block() != p.Block() || len(b.Edges) != len(p.Edges) {
+		return false
+	}
+	key := [2]*ssa.Phi{b, p}
+	if seen[key] {
+		return true
+	}
+	seen[key] = true
+	for i := range b.Edges {
+		eb, ep := b.Edges[i], p.Edges[i]
+		if c, ok := eb.(*ssa.Const); ok && c.Value != nil && c.Value.Kind() == constant.Bool && !constant.BoolVal(c.Value) {
+			continue
+		}
+		if xb, ok := eb.(*ssa.Extract); ok && xb.Index == 1 {
+			if xp, ok := ep.(*ssa.Extract); ok && xp.Index == 0 && xp.Tuple == xb.Tuple {
+				switch t := xb.Tuple.(type) {
+				case *ssa.Lookup:
+					if t.CommaOk {
+						continue
+					}
+				case *ssa.TypeAssert:
+					if t.CommaOk {
+						continue
+					}
+				}
+			}
+			return false
+		}
+		if pb, ok := eb.(*ssa.Phi); ok {
+			if pp, ok := ep.(*ssa.Phi); ok && pairedPhi(pb, pp, seen) {
+				continue
+			}
+		}
+		return false
+	}
+	return true
 }
 
 const maxNilStates = 24
@@ -1389,6 +1490,10 @@ func (fa *fnNil) phiFacts(b, succ *ssa.BasicBlock, s nilState) nilState {
 			f = v
 		} else if opt, _ := fa.a.optional(ls, e.Type()); !opt && ls.kind != "param" && ls.kind != "phi" && ls.kind != "other" && ls.kind != "local" {
 			f = factNonNil
+		} else if !opt {
+			// a parameter, a dynamic call's result, another merge none of whose inputs is optional:
+			// not a source of nil for the merged value (the standing assumption for such values)
+			f = factNonNil
 		}
 		if o == nil {
 			o = s.clone()
@@ -1668,6 +1773,12 @@ func (fa *fnNil) checkKey(k string, ls lastStep, in ssa.Instruction, what string
 	opt, why := a.optional(ls, nil)
 	if !opt && ls.kind != "param" {
 		return
+	}
+	if opt && !proven && ls.kind == "field" && !ls.model && fa.discriminated(k, ls, in) {
+		proven = true
+	}
+	if opt && !proven && ls.kind == "field" && ls.model && ls.field == "Value" && a.cs.resolvedWrappers[fa.fn] {
+		proven = true // wrappers of a loaded document are resolved (scope axiom, see c20)
 	}
 	if opt {
 		if reason := a.excused(fa.fn, ls); reason != "" {
@@ -2020,4 +2131,200 @@ func reqSignature(m map[*ssa.Function][]nilReq) string {
 	}
 	sort.Strings(parts)
 	return strings.Join(uniq(parts), "|")
+}
+
+// unsetByLiterals: for every struct type of the repo outside the document model, the pointer-,
+// interface- and function-typed fields that some keyed composite literal of the type (in non-test
+// code) leaves out: values built there carry nil in the field.
+func unsetByLiterals(p *core.Prog, model map[*types.Named]bool) (map[string]string, map[string][]litInfo) {
+	out := map[string]string{}
+	lits := map[string][]litInfo{}
+	for _, pkg := range p.Pkgs {
+		if pkg.Types == nil || !core.InRepo(pkg.Types) {
+			continue
+		}
+		for _, f := range pkg.Syntax {
+			if strings.HasSuffix(p.Fset.Position(f.Pos()).Filename, "_test.go") {
+				continue
+			}
+			ast.Inspect(f, func(n ast.Node) bool {
+				cl, ok := n.(*ast.CompositeLit)
+				if !ok {
+					return true
+				}
+				named := core.NamedOf(pkg.TypesInfo.TypeOf(cl))
+				if named == nil || named.Obj().Pkg() == nil || !core.InRepo(named.Obj().Pkg()) || model[named.Origin()] {
+					return true
+				}
+				st, ok := named.Underlying().(*types.Struct)
+				if !ok {
+					return true
+				}
+				if len(cl.Elts) == 0 {
+					return true // a blank value to be filled in (or a target for errors.As): not a finished value
+				}
+				if _, keyed := cl.Elts[0].(*ast.KeyValueExpr); !keyed {
+					return true // positional: every field is given
+				}
+				if _, isW := core.IsRefWrapper(named.Origin()); isW {
+					return true // reference wrappers carry a Ref or a Value: their own invariant
+				}
+				given := map[string]bool{}
+				// fields assigned afterwards through the variable the literal initialises
+				for _, fld := range laterAssigned(pkg.TypesInfo, f, cl) {
+					given[fld] = true
+				}
+				consts := map[string]string{}
+				for _, e := range cl.Elts {
+					if kv, ok := e.(*ast.KeyValueExpr); ok {
+						if id, ok := kv.Key.(*ast.Ident); ok {
+							given[id.Name] = true
+							if c, ok := strConst(pkg.TypesInfo, kv.Value); ok {
+								consts[id.Name] = c
+							}
+						}
+					}
+				}
+				lits[named.Obj().Name()] = append(lits[named.Obj().Name()], litInfo{given: given, consts: consts, pos: p.Pos(cl.Pos())})
+				for i := 0; i < st.NumFields(); i++ {
+					fld := st.Field(i)
+					if given[fld.Name()] {
+						continue
+					}
+					switch fld.Type().Underlying().(type) {
+					case *types.Pointer, *types.Interface, *types.Signature:
+					default:
+						continue
+					}
+					k := named.Obj().Name() + "." + fld.Name()
+					if w, ok := out[k]; !ok || p.Pos(cl.Pos()) < w {
+						out[k] = p.Pos(cl.Pos())
+					}
+				}
+				return true
+			})
+		}
+	}
+	return out, lits
+}
+
+// discriminated: the dereference of base.F (F left unset by some literal) happens where a test
+// base.G == "c" holds, and every literal of the struct that can give G the value c also gives F.
+func (fa *fnNil) discriminated(k string, ls lastStep, in ssa.Instruction) bool {
+	a := fa.a
+	i := strings.LastIndex(k, ".")
+	if i < 0 || in.Block() == nil {
+		return false
+	}
+	baseKey := k[:i]
+	blk := in.Block()
+	for _, b := range fa.fn.Blocks {
+		if len(b.Instrs) == 0 || !b.Dominates(blk) || b == blk {
+			continue
+		}
+		iff, ok := b.Instrs[len(b.Instrs)-1].(*ssa.If)
+		if !ok {
+			continue
+		}
+		bo, ok := iff.Cond.(*ssa.BinOp)
+		if !ok || bo.Op != token.EQL {
+			continue
+		}
+		x, c := bo.X, bo.Y
+		if _, isC := x.(*ssa.Const); isC {
+			x, c = c, x
+		}
+		cc, ok := c.(*ssa.Const)
+		if !ok || cc.Value == nil || cc.Value.Kind() != constant.String {
+			continue
+		}
+		t := b.Succs[0]
+		if len(t.Preds) != 1 || !t.Dominates(blk) {
+			continue
+		}
+		ld, ok := x.(*ssa.UnOp)
+		if !ok || ld.Op != token.MUL {
+			continue
+		}
+		fad, ok := ld.X.(*ssa.FieldAddr)
+		if !ok {
+			continue
+		}
+		bk, _ := a.accessKey(fad.X, 0)
+		if bk != baseKey {
+			continue
+		}
+		g := fieldNameOnly(fad.X.Type(), fad.Field)
+		want := constant.StringVal(cc.Value)
+		all := true
+		n := 0
+		for _, li := range a.lits[ls.owner] {
+			v, isConst := li.consts[g]
+			switch {
+			case isConst && v != want:
+				continue
+			case !isConst && !li.given[g] && want != "":
+				continue // G keeps its zero value
+			}
+			n++
+			if !li.given[ls.field] {
+				all = false
+			}
+		}
+		if all && n > 0 {
+			return true
+		}
+	}
+	return false
+}
+
+// laterAssigned: the literal initialises a variable (x := T{...} / x := &T{...}); the names of the
+// fields assigned through that variable (x.F = ...) in the same function.
+func laterAssigned(info *types.Info, file *ast.File, cl *ast.CompositeLit) []string {
+	path, _ := astutil.PathEnclosingInterval(file, cl.Pos(), cl.End())
+	var obj types.Object
+	var body ast.Node
+	for i, n := range path {
+		if as, ok := n.(*ast.AssignStmt); ok && obj == nil && len(as.Lhs) == len(as.Rhs) {
+			for j, r := range as.Rhs {
+				e := ast.Unparen(r)
+				if u, ok := e.(*ast.UnaryExpr); ok && u.Op == token.AND {
+					e = ast.Unparen(u.X)
+				}
+				if e == ast.Expr(cl) {
+					if id, ok := as.Lhs[j].(*ast.Ident); ok {
+						obj = info.ObjectOf(id)
+					}
+				}
+			}
+		}
+		switch fn := n.(type) {
+		case *ast.FuncDecl:
+			body = fn.Body
+		case *ast.FuncLit:
+			if body == nil {
+				body = fn.Body
+			}
+		}
+		_ = i
+	}
+	if obj == nil || body == nil {
+		return nil
+	}
+	var out []string
+	ast.Inspect(body, func(n ast.Node) bool {
+		as, ok := n.(*ast.AssignStmt)
+		if !ok {
+			return true
+		}
+		for _, l := range as.Lhs {
+			if sel, ok := ast.Unparen(l).(*ast.SelectorExpr); ok {
+				if id, ok := ast.Unparen(sel.X).(*ast.Ident); ok && info.ObjectOf(id) == obj {
+					out = append(out, sel.Sel.Name)
+				}
+			}
+		}
+		return true
+	})
+	return out
 }
